@@ -1,6 +1,7 @@
 package sim
 
 import (
+	"strings"
 	"context"
 	"fmt"
 	"net/http"
@@ -215,6 +216,13 @@ func (a fedProto) FilterForwarding(c context.Context, potential []*url.URL, act 
 	case "odd":
 		for i, u := range potential {
 			if i%2 == 1 {
+				out = append(out, u)
+			}
+		}
+	case "skip-anon":
+		// a filter that looks at what it is given: it leaves out the collection it knows to hold an entry without identity
+		for _, u := range potential {
+			if !strings.HasSuffix(u.Path, "/c/anon") {
 				out = append(out, u)
 			}
 		}
